@@ -6,7 +6,8 @@ ID = "C04"
 LEVEL = "exploration"
 TIMEOUT_IS_FAILURE = False
 RULE = ("cases = matrices of all families (incl. exactly singular ones) x nprocs in {1..8, n+3, 24, 40} x controlled schedules (deadlock = "
-        "400000 consecutive spin steps with no thread progressing) or free-running under CPU oversubscription with injected delays; "
+        "400000 consecutive spin steps with no thread progressing) or free-running under CPU oversubscription with injected delays (deadlock = every live worker spun 100000 times "
+        "within one progress epoch), plus a free-running stress phase on star forests with up to 3000 one-column leaf panels; "
         "oracle = monitor: every panel taken exactly once, tasks_remain equals the number of untaken panels at every scheduler call and is 0 "
         "at the end, queue tail <= n and head/tail/count consistent, every column released exactly once by the thread that took its panel, "
         "every panel DONE at finalize, thread starts == thread exits == nprocs, /proc/self/task count equal before and after the call. "
@@ -55,5 +56,9 @@ def classify(case, v):
 
 
 def extra_phase(tier, seed):
-    from props.common import scheduler_model_phase
-    return scheduler_model_phase(ID, tier, seed)
+    from props.common import scheduler_model_phase, free_stress_phase
+    out = scheduler_model_phase(ID, tier, seed)
+    st2 = free_stress_phase(ID, tier, seed)
+    out["violations"] += st2.pop("violations"); out["evaluations"] += st2.pop("evaluations"); out["distinct_nontrivial"] += st2.pop("distinct_nontrivial")
+    out.update(st2)
+    return out
